@@ -112,6 +112,12 @@ add("C20", "exploration",
     "Trusts the BTreeMap model, SHA-256 for completeness checks and strace's -y path decoding.",
     "DESIGN.md section 5 C20")
 
+add("C14", "exploration",
+    "runtime monitor: restores into pre-populated sandbox destinations (per-entry mutations incl. symlinks to sentinels outside) compared entry by entry with the snapshot model; before/after manifest of everything outside the destination; dry-run changes nothing; hostile node names through a synthetic source",
+    "Held on the generated (snapshot, destination pre-state, options) cases and hostile-name snapshots. Sampling.",
+    "Restore runs as root (ownership not compared); pre-existing differing files always carry another mtime (premise when verify_existing is off). The manifest comparison sees persistent changes outside the destination, not transient ones.",
+    "DESIGN.md section 5 C14")
+
 NOT_YET = "check not built yet (work in progress in this round)"
 
 def main():
